@@ -35,8 +35,8 @@ TIED = {
  "C10": "petri_net_translation.variable_to_place / place_to_variable",
  "C11": "space_utils.percolate_space_strict / percolation_conflicts, drivers.find_single_node_LDOIs / find_single_drivers",
  "C13": "the loops of expand_bfs.py, expand_dfs.py, expand_to_target.py, expand_minimal_spaces.py, expand_attractor_seeds.py, expand_source_SCCs.py, expand_source_blocks.py",
- "C14": "_expand_one_node, skip_to_minimal, skip_remaining, reclaim_node_data, expand_source_SCCs.attach_scc_subdiagram (cache clearing)",
- "C15": "the limit handling of expand_bfs.py, expand_dfs.py, expand_to_target.py, expand_minimal_spaces.py, expand_attractor_seeds.py",
+ "C14": "_expand_one_node, skip_to_minimal, skip_remaining, reclaim_node_data, expand_source_SCCs.attach_scc_subdiagram (cache clearing), the cache writes of expand_source_blocks.py",
+ "C15": "the limit handling of expand_bfs.py, expand_dfs.py, expand_to_target.py, expand_minimal_spaces.py, expand_attractor_seeds.py, expand_source_blocks.py",
  "C16": "SuccessionDiagram.__getstate__ / __setstate__, reclaim_node_data",
  "C17": "petri_net_translation.sanitize_network_names",
  "C19": "_expand_one_node (sorting by key), expand_bfs.py, expand_dfs.py (sorted successors)",
